@@ -1,8 +1,10 @@
 (* Correspondence check for C31: histories of SetChunk / GetChunk / GetChunkSlice /
    restart on the real TieredChunkCache, with the bytes every lookup returned
    (one answer per operation; [] for stores, restarts and misses).  At a restart
-   the harness fixes the file timestamps that decide the segment order and whether
-   the leveldb index is rebuilt, and passes them in the Restart operation. *)
+   the harness either fixes the file timestamps that decide the segment order and,
+   per segment, whether the leveldb index is rebuilt, or leaves them as the file
+   system set them and reads them before re-opening (natural restart, crash
+   re-open of a copy of the directory); the Restart operation carries them. *)
 From Coq Require Import List NArith Bool String Ascii.
 From SW Require Export base.Verdict model.ChunkCache.
 Import ListNotations.
@@ -11,7 +13,17 @@ Import ListNotations.
    contents); a string literal is much cheaper to parse than a list of numbers *)
 Definition B (s : string) : bytes := map N_of_ascii (list_ascii_of_string s).
 
-Record case := { prm : params; ops : list op; impl : list bytes }.
+(* [geom]: what the real NewTieredChunkCache computed for these parameters (hook
+   VerifGeometry): tier limits 0 and 1, segment count and per-segment size limit of
+   the three disk tiers, and types.NeedlePaddingSize.  Ties the literals of the
+   model (factors 4, /8, /4+/8, /2, segment counts 2/3/2, padding 8). *)
+Record case := { prm : params; geom : list N; ops : list op; impl : list bytes }.
+
+Definition model_geom (p : params) : list N :=
+  [limit0 p; limit1 p;
+   N.of_nat (List.length (l0 init_state)); N.of_nat (List.length (l1 init_state)); N.of_nat (List.length (l2 init_state));
+   seg_limit0 p; seg_limit1 p; seg_limit2 p;
+   pad8 1].
 
 Fixpoint any_hit (ops : list op) (impl : list bytes) : bool :=
   match ops, impl with
@@ -23,11 +35,15 @@ Definition check (c : case) : outcome :=
   {| (* the model admits every answer: the memory tier may have evicted anything,
         the disk tiers are deterministic given the timestamps *)
      o_corr := admitted_all (ops c) (run (prm c) init_state (ops c)) (impl c) &&
-               Nat.eqb (List.length (ops c)) (List.length (impl c));
+               Nat.eqb (List.length (ops c)) (List.length (impl c)) && hist_ok (ops c) &&
+               bytes_eqb (model_geom (prm c)) (geom c);
      (* the property on the implementation's answers: empty, or allowed by an
         earlier store for the same file id *)
      o_prop := impl_transparent [] (ops c) (impl c);
-     o_trig := if keys_unique (ops c) then None else Some 0%N;
+     (* finding 0 / 1 only when EVERY failing answer is explained, at its own lookup,
+        by a store for another file id with the same needle key / by a minimum
+        size from 2^63 on (props: c31_trigger_total) *)
+     o_trig := trigger (ops c) (impl c);
      o_nontrivial := any_hit (ops c) (impl c) |}.
 
 Definition summarize_cases (l : list case) : summary := summarize check l.
